@@ -213,7 +213,7 @@ def make_stale(rng, tier):
 
 
 CORRUPTIONS = ['empty', 'truncate', 'truncate', 'truncate', 'overwrite', 'overwrite', 'zero', 'garbage',
-               'text', 'other-object', 'splice', 'append', 'attr', 'attr']
+               'text', 'other-object', 'splice', 'append', 'attr', 'attr', 'shape', 'shape']
 ALL_FAULTS = [cw.D_CRASH_BEFORE, cw.D_CRASH_AFTER, cw.D_TORN, cw.D_EIO, cw.D_ENOSPC, cw.D_EACCES,
               cw.D_EMFILE, cw.D_ENOENT, cw.D_MEMERR, cw.D_INTR]
 
@@ -254,6 +254,21 @@ def make_torn(rng, tier):
                 ops.append(dict(base, t=[]))
                 if rng.random() < 0.3:
                     ops.append(dict(base, t=[]))
+        elif r < 0.10 and 'corrupt' in enabled and not cfg['threads_share_process']:
+            # an entry that is damaged AND outdated when a new process asks for it with cache + diff_cache:
+            # parse, damage the pickle, save the file, restart, parse again, edit, parse
+            base = dict(_parse_op(rng, cfg, ['cache']), t=[])
+            ops.append(dict(base, t=[]))
+            ops.append({'k': 'corrupt', 'c': base['c'], 'sel': rng.randrange(8), 'how': rng.choice(CORRUPTIONS + ['shape'] * 8),
+                        'a': rng.randrange(1 << 16), 'b': rng.randrange(1 << 16), 'r': rng.randrange(1 << 30)})
+            ops.extend(_edit_ops(rng, cfg, state, f=base['f'])[-1:])
+            ops[-1].update({'how': 'atomic', 'dt': 5.0})
+            ops.append({'k': 'restart', 'proc': base['p']})
+            again = dict(base, m=rng.choice(['cache+diff', 'cache+diff', 'cache']), t=[])
+            ops.append(dict(again, t=[]))
+            ops.extend(_edit_ops(rng, cfg, state, f=base['f'])[-1:])
+            ops[-1].update({'how': 'atomic', 'dt': 2.5})
+            ops.append(dict(again, t=[]))
         elif r < 0.5:
             op = _parse_op(rng, cfg, modes)
             ops.append(op)
